@@ -23,6 +23,7 @@ class TypeData:
     def __init__(self) -> None:
         self._id_data: Dict[str, Tuple[str, TypesWithId, List[str]]] = {}
         self._ctor_data: Dict[str, Tuple[str, str]] = {}
+        self._reserved_names: set = set()
 
     def add_type_info(
         self,
@@ -42,6 +43,14 @@ class TypeData:
 
     def has_name(self, type_name: str) -> bool:
         return any(type_name == name for name, _, _ in self._id_data.values())
+
+    def reserve_name(self, type_name: str) -> None:
+        # The name of a type whose members are still being generated (it is added
+        # once they are done): nested literals must not take it.
+        self._reserved_names.add(type_name)
+
+    def is_reserved(self, type_name: str) -> bool:
+        return type_name in self._reserved_names
 
     def get_by_name(self, type_name: str) -> List[TypesWithId]:
         return [
